@@ -208,7 +208,7 @@ pub fn conformance(ctx: &CheckCtx, fams: &[&str], assumptions: &[&str]) -> Check
     let mut items: Vec<(&str, &str, Mode)> = fams.iter().map(|f| (*f, set, mode.clone())).collect();
     // the alias entry points (recv_timeout / iter, wait_timeout(_while), park_timeout, call_once_force)
     for f in fams {
-        if matches!(*f, "sync" | "mpsc") {
+        if matches!(*f, "sync" | "mpsc" | "async") {
             items.push((*f, if ctx.tier.is_thorough() { "thorough-alt" } else { "quick-alt" }, mode.clone()));
         }
         // channel operations mixed with park / unpark
